@@ -35,6 +35,15 @@ _re_ident_or_num = re.compile(r'''(?x)
 ''')
 
 
+_re_must_escape = re.compile(
+    '[\x00-\x08\x0b\x0c\x0e-\x1f\x7f-\x9f\u202a-\u202e\u2066-\u2069]')
+
+
+def _escape_char(m: re.Match[str]) -> str:
+    c = ord(m.group(0))
+    return f'\\x{c:02x}' if c < 0x80 else f'\\u{c:04x}'
+
+
 def escape_string(s: str) -> str:
     # characters escaped according to
     # https://www.edgedb.com/docs/reference/edgeql/lexical#strings
@@ -49,6 +58,11 @@ def escape_string(s: str) -> str:
     result = result.replace('\n', '\\n')
     result = result.replace('\r', '\\r')
     result = result.replace('\t', '\\t')
+
+    # The remaining control characters, and the bidirectional formatting
+    # characters which the lexer refuses to read raw, must be written as
+    # escapes as well (\xNN is only valid for ASCII).
+    result = _re_must_escape.sub(_escape_char, result)
 
     return result
 
